@@ -108,6 +108,7 @@ func cmdVerify(argv []string) {
 		con *Contract
 	}
 	var tgts []target
+	var lemmas []*Clause
 	if *targets == "" {
 		for k, c := range cs.ByKey {
 			if !c.IsIface {
@@ -122,6 +123,20 @@ func cmdVerify(argv []string) {
 			}
 			i := strings.Index(t, ":")
 			pkg, des := t[:i], t[i+1:]
+			if strings.HasPrefix(des, "lemma:") {
+				pp := modPath + "/" + pkg
+				found := false
+				for _, cl := range cs.Lemmas {
+					if cs.LemmaPk[cl] == pp && cl.Label == strings.TrimPrefix(des, "lemma:") {
+						lemmas = append(lemmas, cl)
+						found = true
+					}
+				}
+				if !found {
+					res.Missing = append(res.Missing, t+" (no such lemma)")
+				}
+				continue
+			}
 			key := modPath + "/" + pkg + ":" + des
 			if pkg == "." {
 				key = modPath + ":" + des
@@ -166,6 +181,7 @@ func cmdVerify(argv []string) {
 			}
 			for _, o := range ex.obls[before:] {
 				asserts := append([]*Term{}, ex.facts[:o.NFacts]...)
+				asserts = append(asserts, ex.tagFacts...)
 				asserts = append(asserts, Not(o.Goal))
 				var gv []*Term
 				if o.Kind != "vacuity" {
@@ -173,6 +189,19 @@ func cmdVerify(argv []string) {
 				}
 				jobs = append(jobs, job{o, Script(asserts, gv)})
 			}
+		}
+	}
+	for _, cl := range lemmas {
+		before := len(ex.obls)
+		rep := ex.verifyLemma(cl, cs.LemmaPk[cl])
+		res.Functions = append(res.Functions, rep)
+		if rep.Error != "" {
+			res.Errors = append(res.Errors, rep.Func+": "+rep.Error)
+		}
+		for _, o := range ex.obls[before:] {
+			asserts := append([]*Term{}, ex.facts[:o.NFacts]...)
+			asserts = append(asserts, Not(o.Goal))
+			jobs = append(jobs, job{o, Script(asserts, nil)})
 		}
 	}
 	ex.globalObligations(res)
